@@ -312,8 +312,9 @@ def qcvar(ctx, run):
         return
     G = inner[0].args[0]  # elementwise integrand in (OMEGA, xc)
     # the function handed to bisect, evaluated at OMEGA
-    if not isinstance(fn, Closure):
-        raise AnalysisError("quadratic_cvar: bisect's fn is not a local function")
+    from ..interp import BoundMethod, FuncInfo as _FI, Partial
+    if not isinstance(fn, (Closure, BoundMethod, Partial, _FI)):   # a local function, a method of a helper object, a partial: anything callable on the search variable
+        raise AnalysisError("quadratic_cvar: bisect's fn is not a function of the repository")
     interp.reset([])
     fval = interp.call_value(fn, [W_], {})
     A2 = SampleAlgebra(assume_positive={"lam"})
